@@ -30,7 +30,7 @@ From KV Require Import Base.Prelude Base.Crc32 Base.Snappy Gen.ErrorCodes Gen.Co
 From KV Require Import Proofs.BytesFacts Proofs.Crc32Facts Spec.MsgSetSpec.
 Ltac Zify.zify_post_hook ::= Z.div_mod_to_equations.
 
-Notation corrupt := (Err (EKafka KC_CorruptMessage)).
+Local Notation corrupt := (Err (EKafka KC_CorruptMessage)).
 
 (* ====================================================================================== *)
 (* 1. the check                                                                           *)
@@ -799,6 +799,16 @@ Proof.
   - now apply C04_data_burst.
 Qed.
 
+(* the compressed wrapper itself hit by a single-bit flip (codec c, compressed data v): the
+   wrapper is a message like any other, nothing is decompressed *)
+Corollary C04_wrapper_single_bit : forall comp cz d req pre off c v e post,
+  Forall plain_wf pre -> in_i64 off -> 4 + blen (ser_body c None (Some v)) <= i32_max ->
+  length e = (4 + length (ser_body c None (Some v)))%nat -> weight (bits_of_bytes e) = 1%nat ->
+  let msg := xor_bytes (enc_i32 (crc32 (ser_body c None (Some v))) ++ ser_body c None (Some v)) e in
+  from_slice cz (S d) true req
+    (ser comp pre ++ (enc_i64 off ++ enc_i32 (blen msg) ++ msg) ++ post) = corrupt.
+Proof. intros. now apply C04_set_rejects_single_bit. Qed.
+
 (* with validation off a wrong checksum alone never causes rejection: an entry whose stored
    checksum is replaced by any 4 bytes is read exactly like the intact one *)
 Theorem C04_off_entry_ignored : forall dbg off field field' rest post,
@@ -1039,3 +1049,4 @@ Print Assumptions C04_inner_rejects_snappy.
 Print Assumptions C04_set_rejects_single_bit.
 Print Assumptions C04_set_rejects_double_bit.
 Print Assumptions C04_set_rejects_data_burst.
+Print Assumptions C04_wrapper_single_bit.
